@@ -110,6 +110,16 @@ CLAIMED = {
             "trusted: TLC, the transcription of the documented definitions in StdArrays.tla; undocumented argument shapes are "
             "undecided (crash-freedom only); laziness is C03's subject",
             "DESIGN.md §4 C10"),
+    "C11": ("TLA+ spec StdStrings (string functions over code-point sequences, number parsers, UTF-8 and base64 codecs, "
+            "parseJson = the RFC 8259 Reader) evaluated by TLC on enumerated calls with codec-inverse and split/join laws; every "
+            "call replayed through Jsonnet; digests trace-validated against python hashlib",
+            "TLC evaluates Call(c) for every call over strings of length 0..3/4 (thorough +1) mixing ASCII, 2-byte and astral code "
+            "points, overlapping patterns, offsets beyond the length, invalid UTF-8 byte arrays and malformed base64/digit strings, "
+            "and checks Decode(Encode(x)) = x and Join(Split(s)) = s; the implementation must return the same value or fail "
+            "exactly when the definition fails",
+            "trusted: TLC, the transcription of the documented definitions; hashlib for md5/sha1/sha256/sha512/sha3; lossy UTF-8 "
+            "decoding, Latin-1 vs UTF-8 in base64Decode, non-canonical base64 and integers beyond 1e8 are undecided",
+            "DESIGN.md §4 C11"),
 }
 
 NOT_YET = "specification module and binding not built yet in this round; see DESIGN.md §4 for the planned model"
